@@ -435,21 +435,34 @@ def _run_chunk(scs):
     return res
 
 
+_THREAD_ENV = ("OMP_NUM_THREADS", "OPENBLAS_NUM_THREADS", "MKL_NUM_THREADS", "NUMEXPR_NUM_THREADS")
+
+
 def execute(scs, workers=16):
-    os.environ.setdefault("OMP_NUM_THREADS", "1")
-    os.environ.setdefault("MKL_NUM_THREADS", "1")
+    """Run the scenarios on a pool of freshly spawned single-threaded interpreters (BLAS/OpenMP pools of 16 forked
+    workers spinning against each other made the run 20x slower on a loaded machine)."""
     slow = [s for s in scs if s["sampler"] == "gp"]
     rest = [s for s in scs if s["sampler"] != "gp"]
-    chunks = [[s] for s in slow] + [rest[i:i + 8] for i in range(0, len(rest), 8)]
+    chunks = [slow[i:i + 2] for i in range(0, len(slow), 2)] + [rest[i:i + 8] for i in range(0, len(rest), 8)]
     results = {}
-    if len(scs) <= 2:
-        for r in _run_chunk(scs):
-            results[r[0]] = r
-    else:
-        with cf.ProcessPoolExecutor(max_workers=workers, mp_context=mp.get_context("fork")) as ex:
-            for res in ex.map(_run_chunk, chunks):
-                for r in res:
-                    results[r[0]] = r
+    saved = {k: os.environ.get(k) for k in _THREAD_ENV}
+    for k in _THREAD_ENV:
+        os.environ[k] = "1"
+    try:
+        if len(scs) <= 2:
+            for r in _run_chunk(scs):
+                results[r[0]] = r
+        else:
+            with cf.ProcessPoolExecutor(max_workers=workers, mp_context=mp.get_context("spawn")) as ex:
+                for res in ex.map(_run_chunk, chunks):
+                    for r in res:
+                        results[r[0]] = r
+    finally:
+        for k, v in saved.items():
+            if v is None:
+                os.environ.pop(k, None)
+            else:
+                os.environ[k] = v
     traces, metas = [], []
     for sc in scs:
         sid, recs, err = results[sc["sid"]]
